@@ -91,6 +91,10 @@ NOFAULT = 'nofault'
 UNKNOWN = 'unknown'
 
 LOCK_METHODS = {'lock', 'unlock', 'try_lock'}
+# operations of user-supplied threading-policy primitives (Mutex, ConditionVariable, Atomic): part of the policy contract, not
+# callbacks/listeners/predicates; like std::mutex / std::condition_variable / std::atomic they are outside the exception model
+POLICY_PRIMITIVE_METHODS = {'wait', 'wait_for', 'wait_until', 'notify_one', 'notify_all', 'load', 'store', 'exchange',
+                            'fetch_add', 'fetch_sub', 'operator++', 'operator--', 'test_and_set', 'clear'}
 
 # standard-library callees by (short key prefix) -> effect set. Frozen after reading the call sites.
 STD_NOFAULT_PREFIX = (
@@ -157,6 +161,12 @@ def classify_callee(fn, n):
         # user code in the analysed unit (witness policies, listeners, predicates)
         if cal['name'] in LOCK_METHODS and not cal['params']:
             return {NOFAULT}, k
+        if cal['name'] in POLICY_PRIMITIVE_METHODS and cal.get('method'):
+            return {NOFAULT}, k
+        # compiler-generated moves of a user policy type (e.g. a Map derived from a standard container) move their members;
+        # the library's noexcept moves presuppose exactly that these do not throw
+        if (cal.get('ctor') in ('move', 'default') or cal.get('assign') == 'move') and (cal.get('implicit') or cal.get('defaulted')):
+            return {NOFAULT}, k      # ('default': threading-policy primitives are default-constructed like std::mutex / std::condition_variable)
         if cal.get('dtor'):
             return {USER_DESTROY}, k
         if is_ctor or cal.get('assign') or cal['name'] in ('operator==', 'operator<', 'operator!='):
